@@ -28,6 +28,7 @@ type c17Anchors struct {
 	fTimer, fBatch, fNewItem, fProc   int
 	pSize, pMax, pTimeout, pShutdown  int
 	loop                              *ssa.Function
+	startFn                           *ssa.Function // the function whose go statement starts the loop
 	relevant                          map[*ssa.Function]bool
 	mLimit, mSize, mLock, mMap, mKeys int
 	cfgT                              *types.Named
@@ -140,6 +141,7 @@ func findC17Anchors(p *Prog) *c17Anchors {
 			if g, ok := in.(*ssa.Go); ok {
 				if cf := staticCalleeFn(g); cf != nil && recvNamedOfFn(rootFn(cf)) == a.shardT && recvNamedOfFn(rootFn(fn)) == a.shardT {
 					a.loop = cf
+					a.startFn = rootFn(fn)
 				}
 			}
 		})
@@ -531,3 +533,46 @@ func runC17ShardModel(c *Ctx, a *c17Anchors, rule string) {
 }
 
 var _ = token.ADD
+
+var (
+	c17AnchorsProg *Prog
+	c17AnchorsVal  *c17Anchors
+)
+
+// c17AnchorsOf caches the anchors of one loaded program.
+func c17AnchorsOf(p *Prog) *c17Anchors {
+	if c17AnchorsProg != p || c17AnchorsVal == nil {
+		c17AnchorsProg, c17AnchorsVal = p, findC17Anchors(p)
+	}
+	return c17AnchorsVal
+}
+
+// c17IsShardStart: the call starts a shard – it calls the shard method whose go statement runs the shard loop.
+func c17IsShardStart(p *Prog, ci ssa.CallInstruction) bool {
+	a := c17AnchorsOf(p)
+	cf := staticCalleeFn(ci)
+	return cf != nil && a.startFn != nil && cf == a.startFn
+}
+
+// c17IsBatcherConsume: the call hands a request to a batcher: a (ctx, T) error method of one of the package's own
+// interfaces (not the pending batch) or of a type of the package, called from a function of the same shape.
+func c17IsBatcherConsume(ci ssa.CallInstruction, from *ssa.Function) bool {
+	cc := ci.Common()
+	var f *types.Func
+	if cc.IsInvoke() {
+		if isBatchIface(cc.Value.Type()) {
+			return false
+		}
+		f = cc.Method
+	} else {
+		f = calleeOf(ci)
+	}
+	if f == nil || f.Pkg() == nil || pkgOfFn(from) == nil || f.Pkg() != pkgOfFn(from).Pkg {
+		return false
+	}
+	sig, ok := f.Type().(*types.Signature)
+	if !ok || sig.Recv() == nil || sig.Params().Len() != 2 || sig.Results().Len() != 1 {
+		return false
+	}
+	return typeIs(sig.Params().At(0).Type(), "context", "Context") && isErrorType(sig.Results().At(0).Type())
+}
